@@ -9,8 +9,11 @@ Require SC3.model.Graph.
 Require Import SC3.gen.Gen_scgftables SC3.gen.Gen_opcodes.
 Require Import SC3.model.Scgf SC3.model.GraphScgf.
 Require Import SC3.proofs.C02_scgf SC3.proofs.C02_wf SC3.proofs.C02_total SC3.proofs.C02_reader SC3.proofs.C02_variants
-               SC3.proofs.C02_bridge.
+               SC3.proofs.C02_bridge SC3.proofs.C02_link.
+Require SC3.proofs.C01_built.
 Close Scope string_scope.
+Close Scope nat_scope.
+Open Scope Z_scope.
 Open Scope Z_scope.
 
 (* Whatever structure d the writer accepts (names <= 255 ASCII bytes, 32-bit words, counts and
@@ -157,6 +160,16 @@ Theorem reader_bus_control_name : forall d u c src n before consts,
   start_of_n consts (slot_names d) before (IOut u c) = Some (SName n).
 Proof. exact bus_control_name_l. Qed.
 
+(* ---- operator units in the description reader -------------------------------------------- *)
+(* UnaryOpUGen / BinaryOpUGen are rebuilt by looking the special index up in the (regenerated) unary /
+   binary operator table: on the WHOLE range of each table the lookup is defined, so the reader never
+   raises on an operator unit the writer can emit (every other class ignores the special index) *)
+Theorem reader_operator_lookup_defined : forall u,
+  (u_cls u = unop_cls -> 0 <= u_special u < zlen unops_list) ->
+  (u_cls u = binop_cls -> 0 <= u_special u < zlen binops_list) ->
+  exists o, unit_operator u = Some o.
+Proof. exact unit_operator_defined. Qed.
+
 (* ---- bridge to the compiler model (model/Graph.v) ---------------------------------------- *)
 (* a compiled graph that passes graph_ok (inputs = collected constants / outputs of strictly earlier
    units, control units inside the control array, fields in range) becomes a well-formed
@@ -181,24 +194,38 @@ Proof. exact to_sdef_roundtrip_l. Qed.
 Theorem graph_ok_from_core_and_size : forall g, graph_core_ok g = true -> graph_small g = true -> graph_ok g = true.
 Proof. exact graph_core_small_ok. Qed.
 
-(* PARTIAL: for EVERY program the compiler model compiles and whose graph fits the integer fields of
-   the format (graph_small, decidable on g) -- under the explicit hypothesis
-   compile_wf (the compiler's output passes graph_core_ok), which is C01/C20's obligation
-   (DESIGN: compile_wf / topo_is_permutation_respecting_edges) and is not proved there yet.
-   Full statement = this one without the hypothesis.  Meanwhile bridge_check evaluates graph_ok,
-   wf_def and byte equality with the REAL library on every correspondence program. *)
-Theorem compiled_programs_roundtrip_partial : forall (cmp : Graph.prog -> Graph.res Graph.graph),
-  (* cmp = Graph.compile T <flags>; stated for any function of this type so that it does not depend
-     on how many flags the compiler model takes *)
-  (forall p g, cmp p = Graph.Ok g -> graph_core_ok g = true) ->
-  forall f32 name pnames p g,
+(* FULL (for every program, no hypothesis): whatever program the compiler model compiles (with the
+   regenerated flags, i.e. the code of the tree), in the emitted graph every constant input is in the
+   constant table and every unit input refers to a unit at a STRICTLY SMALLER position -- the
+   "topologically ordered" clause of C02 for the compiler's output.  Proved in proofs/C02_link.v from
+   build-C01's compile_total / Compiled (sorted children, Before, Covered) and a lemma about
+   collect_constants. *)
+Theorem compiled_programs_topologically_ordered : forall p g,
+  Graph.compile C01_built.T dce_strict dce_guard sub_guard p = Graph.Ok g -> graph_order_ok g = true.
+Proof. exact compile_order_l. Qed.
+
+(* the structural part of graph_ok = the order part (just proved for all programs) + facts local to one
+   unit (class name, output index inside the referenced unit's outputs, control units inside the
+   control array) *)
+Theorem graph_core_from_order_and_local : forall g,
+  graph_order_ok g = true -> graph_local_ok g = true -> graph_core_ok g = true.
+Proof. exact graph_order_local_core. Qed.
+
+(* PARTIAL (narrowed in the 2nd deepening round): for EVERY program the compiler model compiles, if the
+   emitted graph passes the two DECIDABLE checks graph_local_ok (class names, output-index range,
+   control coverage) and graph_small (integer fields of the format), its definition exists, is
+   well-formed, is written and parses back.  No universally quantified hypothesis about the compiler
+   is left; the full statement is this one without the premise graph_local_ok (three invariants of
+   Graph.compile that are not proved: see notes/C02.md "Partial theorems"). *)
+Theorem compiled_programs_roundtrip_partial : forall f32 name pnames p g,
   (forall q, w32_ok (f32 q) = true) ->
-  cmp p = Graph.Ok g ->
+  Graph.compile C01_built.T dce_strict dce_guard sub_guard p = Graph.Ok g ->
+  graph_local_ok g = true ->
   graph_small g = true ->
   names_ok name pnames (zlen (Graph.gr_controls g)) = true ->
   exists d bs, to_sdef f32 name pnames g = Some d /\ wf_def d = true
                /\ write_def d = Some bs /\ parse_def bs = Ok d.
-Proof. exact compiled_roundtrip_partial_l. Qed.
+Proof. exact compile_roundtrip_l. Qed.
 
 (* ---- non-vacuity: a concrete definition (SinOsc.ar(freq) -> Pan2 -> Out, one control 'gate'),
         accepted by the writer, well-formed, read back by both readers ---- *)
@@ -262,7 +289,7 @@ Definition ex_prog : Graph.prog :=
 Example ex_compiled_bridge :
   match ex_cmp ex_prog with
   | Graph.Ok g =>
-      graph_core_ok g = true /\ graph_small g = true /\ graph_ok g = true
+      graph_order_ok g = true /\ graph_local_ok g = true /\ graph_core_ok g = true /\ graph_small g = true /\ graph_ok g = true
       /\ match to_sdef (fun _ => 0) (bs_of_string "c"%string) [(bs_of_string "k0"%string, 0); (bs_of_string "k1"%string, 1)] g with
          | Some d => wf_def d = true /\ List.length (d_units d) = 3%nat
                      /\ match write_def d with Some bs => parse_def bs = Ok d | None => False end
@@ -273,9 +300,16 @@ Proof. vm_compute. repeat split. Qed.
 Example ex_len255_name : lib_rd_pstr (enc_pstr (repeat 120 255) ++ [7]) = Ok (repeat 120 255, [7]).
 Proof. vm_compute. reflexivity. Qed.
 
+(* the last unary operator (index 53, 'scurve') is found in the unary table, not the binary one *)
+Example ex_last_unary_operator :
+  unit_operator (mkUgen unop_cls 2 [IOut 0 0] [2] (zlen unops_list - 1)) = Some (Some (bs_of_string "scurve"%string))
+  /\ unit_operator (mkUgen binop_cls 2 [IOut 0 0; IOut 0 0] [2] (zlen unops_list - 1)) = None.
+Proof. vm_compute. split; reflexivity. Qed.
+
 Print Assumptions scgf_roundtrip.
 Print Assumptions wf_def_sound.
 Print Assumptions reader_recovers.
 Print Assumptions parse_total.
 Print Assumptions compiled_programs_roundtrip_partial.
+Print Assumptions compiled_programs_topologically_ordered.
 Print Assumptions reader_io_units.
